@@ -470,9 +470,13 @@ class _FuncTyper:
             return
         if isinstance(st, ast.While):
             self.typ(st.test)
+            pos, neg = self.narrowings(st.test)
             env0 = dict(self.env)
+            self.env.update(pos)  # inside the body the loop condition holds
             self.block(st.body)
             self.env = self.merge(env0, self.env)
+            if not any(isinstance(n, ast.Break) for n in ast.walk(st)):
+                self.env.update({k: v for k, v in neg.items() if k in self.env})  # after a loop without break the condition is false
             self.block(st.orelse)
             return
         if isinstance(st, (ast.With, ast.AsyncWith)):
